@@ -186,7 +186,23 @@ pub fn mutate_semantic(p: &mut Program, rng: &mut Rng) -> Option<String> {
         let ti = rng.usize(p.txs.len());
         let foreign = foreign_names(p);
         let tx = &mut p.txs[ti];
-        match rng.below(11) {
+        match rng.below(12) {
+            11 => {
+                // a policy whose hash, script or ref is written as a name in scope (an env var, a party, another
+                // policy, an asset, a type ...) instead of a literal
+                if !p.policies.is_empty() {
+                    let k = rng.usize(p.policies.len());
+                    let (kind, name) = rng.pick(&foreign).clone();
+                    let lit = format!("0x{}", ::hex::encode(&p.policies[k].hash));
+                    let (fields, what) = match rng.below(4) {
+                        0 | 1 => (format!("hash: {name},"), "hash"),
+                        2 => (format!("hash: {lit}, script: {name},"), "script"),
+                        _ => (format!("hash: {lit}, ref: {name},"), "ref"),
+                    };
+                    p.policies[k].form = PolicyForm::RawCtor(fields);
+                    return Some(format!("policy-{what}-is-{kind}"));
+                }
+            }
             10 => {
                 // an asset (that some tx constructs) whose policy or name is written as a name in scope - an env
                 // var, a parameter, a party, a policy, another asset ... - instead of a literal
